@@ -754,7 +754,16 @@ func checkC17(p *Prog, r *Report) {
 									break
 								}
 								if p.ObjOf(id) == o {
+									// the parameter as it was passed: never reassigned (capped, defaulted, rounded) before the store
 									verb = true
+									for _, g := range append([]*Func{fn.Root()}, fn.Root().Lits...) {
+										for _, d := range p.DefsOf(g, o) {
+											switch d.Node.(type) {
+											case *ast.AssignStmt, *ast.IncDecStmt, *ast.UnaryExpr:
+												verb = false
+											}
+										}
+									}
 								}
 							}
 						}
